@@ -56,11 +56,20 @@ def run(ctx):
                 line = 'decomp %d %d %d %s' % (l, B, N, ' '.join(map(str, xs)))
                 builds = ['debug'] if N % 8 else ['optim', 'debug']
                 for b in builds: cases.append((line, b, l, B, N, xs, 'decomp'))
+        # ring sizes beyond the default 1024 (the routine takes any N; blocked or chunked variants show only past their block size)
+        li = LAYOUTS.index((l, B))
+        for N in ([4096] + ([256, 2048] if li % 3 == 0 or thorough else []) + ([8192, 512] if thorough else [])):
+            xs = []
+            while len(xs) < N: xs += values(rng, l, B, 64)
+            xs = xs[:N]; rng.shuffle(xs)
+            line = 'decomp %d %d %d %s' % (l, B, N, ' '.join(map(str, xs)))
+            for b in ('optim', 'debug'): cases.append((line, b, l, B, N, xs, 'decomp'))
         cases.append(('tgswparams %d %d' % (l, B), 'optim', l, B, 0, [], 'params'))
     for (l, B) in [(3, 7), (2, 10), (4, 8), (16, 2)]:
         for k in (1, 2):
-            for N in (8, 1024):
+            for N in ((8, 1024, 4096) if (l, B, k) == (3, 7, 1) or thorough else (8, 1024)):
                 xs = [vlib.w32(v) for v in values(rng, l, B, (k + 1) * N)][: (k + 1) * N]
+                while len(xs) < (k + 1) * N: xs += xs[: (k + 1) * N - len(xs)]
                 rng.shuffle(xs)
                 line = 'tlwedecomp %d %d %d %d %s' % (l, B, k, N, ' '.join(map(str, xs)))
                 for b in ('optim', 'debug'): cases.append((line, b, l, B, N, xs, 'tlwe'))
@@ -125,7 +134,7 @@ def run(ctx):
                 ctx.report('decomp-sweep', '%s build: %s -> %s' % (j[0], j[1], o), {'case': j[1], 'build': j[0], 'result': o})
         ctx.cov['exhaustive_sweeps'] = 'all 2^32 coefficient values for (3,7) and (2,10), both builds'
     ctx.cov['correspondence_cases'] = len(cases); ctx.cov['disagreements'] = ndis
-    ctx.cov['input_distribution'] = {'layouts': LAYOUTS, 'N': [8, 16, 1024, 3, 1], 'builds': ['optim (AVX2 asm)', 'debug (scalar)']}
+    ctx.cov['input_distribution'] = {'layouts': LAYOUTS, 'N': [8, 16, 1024, 3, 1, 256, 2048, 4096], 'builds': ['optim (AVX2 asm)', 'debug (scalar)']}
     for c in cases[:: max(1, len(cases) // 8)]: ctx.sample({'case': c[0][:160], 'build': c[1], 'impl': impl[cases.index(c)][:160]})
 
 def replay(ctx, data):
